@@ -392,10 +392,12 @@ extern "C" int nsim_is_live (const void *p) {
 	return cell_of (r, (uintptr_t) p & ~(uintptr_t) 3)->live == 1;
 }
 extern "C" void nsim_client_read (const void *p, int size, int site) {
+	TRACE ("client read  0x%lx", (unsigned long) p);
 	shadow_access ((uintptr_t) p, size, 0, 0);
 	(void) site;
 }
 extern "C" void nsim_client_write (void *p, int size, int site) {
+	TRACE ("client write 0x%lx", (unsigned long) p);
 	shadow_access ((uintptr_t) p, size, 1, 0);
 	(void) site;
 }
@@ -538,13 +540,18 @@ static void schedule (bool cur_can_continue, bool is_yield) {
 		int n = 0;
 		int base = cur ? cur->tid : 0;
 		bool cur_first = false;
-		if (cur && cur_can_continue && !is_yield) { cands[n++] = cur->tid; cur_first = true; }
+		// the current fibre may have been made runnable again by a timer, a predicate or quiescence
+		bool cur_ok = cur && cur->st == F_RUNNABLE && (cur_can_continue || true);
+		if (cur_ok && cur_can_continue && !is_yield) { cands[n++] = cur->tid; cur_first = true; }
 		for (int k = 1; k <= g.nfib; k++) {
 			int i = (base + k) % g.nfib;
 			if (cur && i == cur->tid) continue;
 			if (g.fib[i].st == F_RUNNABLE) cands[n++] = i;
 		}
-		if (cur && cur_can_continue && is_yield && n == 0) { cands[n++] = cur->tid; }
+		if (cur_ok && !cur_first) {
+			// a yielding fibre, or one that blocked and was woken meanwhile: last in cyclic order
+			if (!(is_yield && n > 0)) cands[n++] = cur->tid;
+		}
 		if (n == 0) {
 			// nobody runnable: timers, then quiescence waiters, then end of run
 			int64_t ed = earliest_deadline ();
